@@ -3,7 +3,7 @@
    the FIRST/nullable tables of the validator (what the SLR annotation of
    table_complete needs). *)
 From Coq Require Import NArith List Bool Lia Arith.
-From PV Require Import Spec.Cfg Model.First Validators.TableComplete Proofs.SetProofs
+From PV Require Import Spec.Cfg Model.First Model.TableSpec Validators.TableComplete Proofs.SetProofs
   Proofs.CompleteProofs Proofs.FirstProofs.
 Import ListNotations.
 Local Open Scope N_scope.
